@@ -123,6 +123,8 @@ def run(P, C, tier):
                     t = gm.def_term(bi, si, st["rv"], 0)
                     t_full = gm.def_term(bi, si, st["rv"], 0, expand_vars=True)      # through a helper analysed inlined (`Some(Self::fts_text(&v)?)`)
                     v = [x for x in mir.subterms(t) if x[0] == "var"] + [x for x in mir.subterms(t_full) if x[0] == "var"]
+                    if mir.has_call(t_full, r"extract_json$") is not None:
+                        oks[last[1:]] = True
                     # the variable was filled by extract_json(&json, &mut var)
                     for x in v:
                         for eb, et in gm.calls_to(r"extract_json$"):
